@@ -215,6 +215,7 @@ class EMPlain(EMBase):
         self.note = "non-tensor attribute"
         self.index = torch.arange(3)                      # non-float tensor
         self.extra = torch.ones(2, dtype=DT) * 0.5        # undeclared float tensor, unused
+        self.bounds = (torch.zeros(1, dtype=DT), 2.5)     # a float tensor inside a tuple (immutable container)
 
     def _W(self):
         return self.W
